@@ -60,14 +60,15 @@ C05_Delivery(obs, gg, c, dl) ==
           /\ [c |-> c, sess |-> Sess(obs, c), t |-> dl[i].t, id |-> dl[i].id] \notin gg.delivered
           /\ \A j \in 1..Len(dl) : (i # j /\ dl[i].t = dl[j].t) => dl[i].id # dl[j].id
           /\ \E m \in gg.sent : m.c = c /\ m.sess = Sess(obs, c) /\ m.t = dl[i].t /\ m.id = dl[i].id
-    /\ \A t \in SEvSet :
+    /\ \A t \in {x \in SEvSet : ~Unreliable(x)} :         \* sending order on ordered channels
           LET s == SelectSeq(dl, LAMBDA d : d.t = t)
           IN /\ \A i \in 1..(Len(s) - 1) : s[i].id < s[i + 1].id
              /\ Len(s) > 0 => s[1].id > gg.lastId[c][t]
 
 \* at quiescence: every reliable event reached each required recipient exactly once
+\* (over an unreliable channel delivery is at most once: C05_Delivery alone applies)
 C05_Complete(obs, gg) ==
-    \A x \in gg.emitted : \A cs \in x.must :
+    \A x \in {y \in gg.emitted : ~Unreliable(y.t)} : \A cs \in x.must :
         (obs.srv.cl[cs[1]].conn /\ obs.ev.sess[cs[1]] = cs[2] /\ obs.cli[cs[1]].status = "Connected") =>
             (\/ [c |-> cs[1], sess |-> cs[2], t |-> x.t, id |-> x.id] \in gg.delivered
              \/ (Mapped(x.t) /\ x.e # None /\ x.e \notin DOMAIN obs.cli[cs[1]].ents))   \* withheld: unresolvable
@@ -81,14 +82,14 @@ C05_ServerDelivery(obs, gg, sdl) ==
           /\ [c |-> sdl[i].from, t |-> sdl[i].t, id |-> sdl[i].id] \notin gg.sdelivered
           /\ \A j \in 1..Len(sdl) : (i # j /\ sdl[i].t = sdl[j].t) => sdl[i].id # sdl[j].id
           /\ \E y \in gg.cemitted : y.c = sdl[i].from /\ y.t = sdl[i].t /\ y.id = sdl[i].id /\ y.e = sdl[i].e
-    /\ \A c \in Client, t \in CEvSet :
+    /\ \A c \in Client, t \in {x \in CEvSet : ~Unreliable(x)} :
           LET s == SelectSeq(sdl, LAMBDA d : d.t = t /\ d.from = c)
           IN /\ \A i \in 1..(Len(s) - 1) : s[i].id < s[i + 1].id
              /\ Len(s) > 0 => s[1].id > gg.slastId[c][t]
 
 C05_ServerComplete(obs, gg) ==
     \A y \in gg.cemitted :
-        (y.sendable /\ obs.srv.cl[y.c].conn /\ obs.ev.sess[y.c] = y.sess) =>
+        (y.sendable /\ ~Unreliable(y.t) /\ obs.srv.cl[y.c].conn /\ obs.ev.sess[y.c] = y.sess) =>
             [c |-> y.c, t |-> y.t, id |-> y.id] \in gg.sdelivered
 
 ----------------------------------------------------------------------------
